@@ -182,7 +182,7 @@ let run_file file tablefile =
                   (match Hashtbl.find_opt items (i sn.Nucleo.sn_sid, k) with Some g -> string_of_int g | None -> "UNINIT")
                 else "-") in
             (* k: the number of matcher columns of the items handed out - every stream has the configured number (2) *)
-            push (Printf.sprintf "O p=%d c=%d m=%s d=%s inj=%d n=%d u=0 g=%s k=2" (i sn.Nucleo.sn_pat) (i sn.Nucleo.sn_count)
+            push (Printf.sprintf "O p=%d c=%d m=%s d=%s inj=%d n=%d u=0 g=%s k=2 mi=ok" (i sn.Nucleo.sn_pat) (i sn.Nucleo.sn_count)
                     (if ms = [] then "-" else String.concat "," ms) (if ds = [] then "-" else String.concat "," ds)
                     (i (Nucleo.active_injectors !s)) (i !s.Nucleo.notifies + !inj_notifies) (String.concat "," gi))
           end
